@@ -82,7 +82,8 @@ def symbolic(draw, params):
     for _ in range(n):
         terms.append({"coef": draw(st.sampled_from([1, -1, 2, 0.5, -1.5, 3, 1e-5, 0.54, 7])), "p": draw(st.sampled_from(params)),
                       "pow": draw(st.sampled_from([1, 1, 2, 3, -1, -2, 0.5])), "p2": draw(st.one_of(st.none(), st.sampled_from(params)))})
-    return {"t": "sym", "terms": terms, "const": draw(st.sampled_from([0, 1, -2.5, 0.25]))}
+    return {"t": "sym", "terms": terms, "const": draw(st.sampled_from([0, 1, -2.5, 0.25])),
+            "nested": draw(st.sampled_from([0, 0, 0, 1, 2, 3, 4, 5, 6]))}
 
 
 @st.composite
@@ -187,6 +188,14 @@ def realise(d):
         elif mem == "reversed-view":
             a = a[::-1, ::-1][::-1, ::-1] if False else np.ascontiguousarray(a[::-1])[::-1]   # negative strides
         return a
+    if t == "sym" and d.get("nested"):
+        # forms with nested brackets around powers and leading minus signs
+        x, y = sym.Symbol(d["terms"][0]["p"]), sym.Symbol(d["terms"][-1]["p2"] or d["terms"][-1]["p"])
+        z = sym.Symbol(d["terms"][0]["p2"] or d["terms"][0]["p"])
+        k = d["nested"]
+        forms = [-(y ** (z * (x + 1))), -((x + (z + 1) / y) ** 2), -((x + 1) ** 2) / (y + 2) + z, (-(x * (y + 1))) ** 3 - z,
+                 2 ** (-(x + 1) / (y + 3)), -(((x + 1) * (z + 2)) ** 2) * y]
+        return forms[k % len(forms)]
     if t == "sym":
         e = sym.Float(d["const"]) if isinstance(d["const"], float) else sym.Integer(d["const"])
         for tm in d["terms"]:
@@ -264,4 +273,29 @@ def check(c):
         return out
     mm = canon.compare_programs(bb, p)
     out.violations.extend(K.mismatch_violations("roundtrip", mm, "%s\nprogram: %r %r %r" % (text, bb.operations, bb.target, bb.programtype)))
+    if out.violations:
+        return out
+    # the docs promise that a *modified* program can be serialised again: edit values in place, serialise and re-load
+    edited = []
+    for o in bb._operations:
+        for a in list(o.get("args", [])) + list((o.get("kwargs") or {}).values()):
+            if isinstance(a, np.ndarray) and a.size and not edited:
+                a.flat[0] = a.flat[0] + 1 if a.dtype.kind in "iu" and abs(int(a.flat[0])) < 2 ** 62 else (a.flat[-1] if a.dtype.kind in "iu" else a.flat[0] * 0.5 + 1.25)
+                edited.append("array element")
+        if "args" in o and o["args"] and isinstance(o["args"][0], (int, float)) and not isinstance(o["args"][0], bool) and len(edited) < 2:
+            o["args"][0] = 7.5
+            edited.append("positional value")
+    if edited:
+        out.classes.append("modified-and-serialised-again")
+        text2, e = K.safe_dumps(bb)
+        if e is not None:
+            out.violations.append(Violation(exc_bucket("dumps-after-edit", e), "dumps raised %s: %s after editing %s in place\n%s" % (type(e).__name__, e, edited, text)))
+            return out
+        p2, e = K.safe_loads(text2)
+        if e is not None:
+            out.violations.append(Violation(exc_bucket("reload-after-edit", e), "text serialised after editing %s does not load: %s\n%s" % (edited, e, text2)))
+            return out
+        mm = canon.compare_programs(bb, p2)
+        out.violations.extend(K.mismatch_violations("roundtrip-after-edit", mm, "edited %s in place after a first dumps\nfirst text:\n%s\nsecond text:\n%s" % (
+            edited, text, text2)))
     return out
